@@ -1,6 +1,7 @@
 package props
 
 import (
+	"verif/sim/chain"
 	"verif/sim/core"
 	"verif/sim/store"
 )
@@ -54,7 +55,9 @@ func init() {
 		ID: "C07", Level: "fault_enumeration",
 		Batches: []core.Batch{
 			{Name: "nodedb-crash", Engine: store.CrashEngine{}, Quick: 1200, Thorough: 30000,
-				Rule: "a run is non-trivial when the sampled operation performed at least one durable write and every hook hit inside it was used as a crash point (child process exit), followed by reopen, retry and continued operation"},
+				Rule: "a run is non-trivial when the sampled operation performed at least one durable write and every hook hit inside it was used as a crash point (child process exit), followed by reopen, retry and continued operation", Weight: 3},
+			{Name: "chaincrash", Engine: chain.Engine{Prop: "C07"}, Quick: 192, Thorough: 3000,
+				Rule: "a run is non-trivial when at least three heights were produced and at least one crash image of a consensus replica (data directory + CometBFT stores at the chosen instant inside block commit) was restarted through the CometBFT handshake and passed all comparisons up to the tip", Weight: 2},
 		},
 		Real:        []string{"badger and pathbadger Commit/Finalize/Prune/StartMultipartInsert/chunk Commit on tmpfs directories, written by a child OS process that exits abruptly (os.Exit) at the selected verifhook point", "reopen (db.New incl. multipart leftover cleanup), checkpoint restorer"},
 		Stub:        []string{"process death is os.Exit in a child process (no power-loss write reordering, no torn sectors; badger-internal partial batch application is not enumerable)"},
